@@ -71,7 +71,9 @@ def workdir():
 # ------------------------------------------------------------------------------------------------ C16
 C16_DOCS = [
     [{"id": 1, "name": "a", "tags": ["x"], "p": {"a": 1, "b": 2, "c": 3, "d": 4}, "q": {"a": 1, "x": 2, "y": 3, "z": 4}}, {"id": 2, "name": "b", "extra": None}],
-    {"id": 3, "name": "c", "nested": {"k": 1.5}},
+    {"id": 3, "name": "c", "nested": {"k": 1.5},
+     "u": {"s1": 1, "s2": 1, "s3": 1, "s4": 1, "s5": 1, "s6": 1, "s7": 1, "a1": 1},
+     "v": {"s1": 1, "s2": 1, "s3": 1, "s4": 1, "s5": 1, "s6": 1, "s7": 1, "b1": 1, "b2": 1}},
     {"data": {"items": [{"id": 4, "s": "on"}, {"id": 5, "s": "off", "coupon": 7}]}},
     [{"id": 6, "when": "2018-12-31", "n": "12"}],
 ]
@@ -105,6 +107,24 @@ def oracle_c16(case):
         elif split == "m_and_l":
             argv += ["-m", "Item", files[0], "-l", "Item", "data.items", files[2], "-l", "Cust", "-", files[1]]
             samples = {"Item": C16_DOCS[0] + C16_DOCS[2]["data"]["items"], "Cust": [C16_DOCS[1]]}
+        elif split == "empty_pages":
+            # paginated dumps: some files hold an empty list, null or nothing at the lookup path - they contribute no sample
+            pages = [{"data": {"items": C16_DOCS[2]["data"]["items"]}}, {"data": {"items": []}}, {"data": {"items": [{"id": 9, "s": "x"}]}}]
+            for i, pg in enumerate(pages):
+                fp = os.path.join(d, f"page{i}.json")
+                json.dump(pg, open(fp, "w"))
+                argv += ["-m", "Item", "data.items", fp]
+            samples = {"Item": pages[0]["data"]["items"] + pages[2]["data"]["items"]}
+        elif split == "bracket_name":
+            # a literal file name with glob meta-characters in it; a decoy that the character class would match
+            real = os.path.join(d, "export[1].json")
+            json.dump(C16_DOCS[0], open(real, "w"))
+            json.dump([{"decoy": True}], open(os.path.join(d, "export1.json"), "w"))
+            sub2 = os.path.join(d, "run[3]")
+            os.mkdir(sub2)
+            json.dump(C16_DOCS[1], open(os.path.join(sub2, "x.json"), "w"))
+            argv += ["-m", "Item", real, "-m", "Item", os.path.join(sub2, "x.json")]
+            samples = {"Item": C16_DOCS[0] + [C16_DOCS[1]]}
         elif split == "pattern":
             sub = os.path.join(d, "one")
             os.mkdir(sub)
@@ -168,21 +188,130 @@ def oracle_c16(case):
 
 @bounded("C16", "cli_equals_library_pipeline")
 def c16(tier, seed):
-    splits = ["one_model_many_files", "two_models", "m_and_l", "pattern"]
-    opts = ["none", "exact", "max0", "max2", "dkf", "converters", "preamble", "merge:percent_1", "merge:percent_0.5", "merge:percent_15", "merge:percent_100 number_1",
+    splits = ["one_model_many_files", "two_models", "m_and_l", "pattern", "bracket_name", "empty_pages"]
+    opts = ["none", "exact", "max0", "max2", "dkf", "converters", "preamble", "merge:percent_1", "merge:percent_0.5", "merge:percent_15", "merge:percent_100 number_1", "merge:percent_70", "merge:percent_71", "merge:percent_69",
             "merge:number_2", "merge:number_1 exact"]
     fws = ["base", "pydantic", "attrs", "dataclasses"] if tier == "thorough" else ["pydantic", "dataclasses"]
     cases = [(s, fw, lay, o) for s in splits for fw in fws for lay in ("flat", "nested") for o in opts]
     r = run_cases(cases, oracle_c16, "c16")
-    r["bound"] = f"4 ways of splitting 4 documents over files / lookups / -m / -l / a one-file pattern x {len(fws)} frameworks x 2 layouts x 13 option sets (incl. merge thresholds around the overlaps present); stdout and -o both compared with the library pipeline"
+    r["bound"] = f"6 ways of splitting 4 documents over files / lookups / -m / -l / a one-file pattern / literal names containing [ ] / paginated files with an empty page x {len(fws)} frameworks x 2 layouts x 16 option sets (incl. merge thresholds around the overlaps present); stdout and -o both compared with the library pipeline"
     r["function"] = "Cli.parse_args + Cli.run (in-process)"
+    return r
+
+
+@bounded("C02", "cli_infers_from_exactly_the_objects_in_the_files")
+def c02_cli(tier, seed):
+    """tightness seen through the command line: a file that holds an empty list / nothing at the lookup path adds no (phantom) sample,
+    so no field becomes Optional because of it - decided by comparing with the library run on exactly the objects in the files"""
+    cases = [("empty_pages", fw, "flat", "none") for fw in ("pydantic", "dataclasses")] + [("m_and_l", "pydantic", "flat", "none")]
+    r = run_cases(cases, oracle_c16, "c16")
+    r["bound"] = "paginated lookup files with an empty page (2 frameworks) and a mixed -m/-l input: CLI output equals the library pipeline on exactly the objects present"
+    r["function"] = "dict_lookup / iter_json_file / Cli.setup_models_data"
+    return r
+
+
+# ------------------------------------------------------------------------------------------------ C09 through the command line
+def oracle_c09_cli(case):
+    """'disabled types never appear in output': every spelling the option's help documents (python type name or pseudo-type class
+    name) removes that pseudo-type and only that one"""
+    names = list(case)
+    with workdir() as d:
+        p = os.path.join(d, "g.json")
+        json.dump([{"n": "12", "f": "1.5", "b": "true"}], open(p, "w"))
+        out, exc, printed = run_cli(["-m", "Item", p, "-f", "attrs", "--disable-str-serializable-types"] + list(names))
+        if exc is not None:
+            return f"run failed: {type(exc).__name__}: {exc}"
+        body = strip_header(out)
+        expect = {"n": "IntString", "f": "FloatString", "b": "BooleanString"}
+        alias = {"int": "IntString", "float": "FloatString", "bool": "BooleanString"}
+        disabled = {alias.get(x, x) for x in names}
+        for field, pseudo in expect.items():
+            line = next((l for l in body.splitlines() if l.strip().startswith(field + ":")), "")
+            has = pseudo in line
+            if pseudo in disabled and has:
+                return f"--disable-str-serializable-types {' '.join(names)}: {pseudo} still appears ({line.strip()})"
+            if pseudo not in disabled and not has and not (pseudo == "IntString" and "FloatString" in disabled and False):
+                return f"--disable-str-serializable-types {' '.join(names)}: {pseudo} disappeared although it was not disabled ({line.strip()})"
+    return None
+
+
+@bounded("C09", "disabled_types_via_cli")
+def c09_cli(tier, seed):
+    spellings = [("int",), ("float",), ("bool",), ("IntString",), ("FloatString",), ("BooleanString",), ("int", "BooleanString"), ("FloatString", "bool")]
+    r = run_cases(spellings, oracle_c09_cli, "c09_cli")
+    r["bound"] = "8 option values (python type names and pseudo-type class names, singly and in pairs) on one object with an int-, a float- and a bool-like string; attrs output"
+    r["function"] = "Cli._create_argparser / Cli.parse_args / StringSerializableRegistry.remove_by_name"
+    return r
+
+
+# ------------------------------------------------------------------------------------------------ C10 through the command line
+def oracle_c10_cli(case):
+    """the configured literal limit reaches the generator unchanged: k distinct short strings give Literal[...] iff k < N (and k <= 15)"""
+    k, n = case
+    with workdir() as d:
+        p = os.path.join(d, "g.json")
+        json.dump([{"s": f"v{i:02d}"} for i in range(k)], open(p, "w"))
+        out, exc, printed = run_cli(["-m", "Item", p, "-f", "pydantic", "--max-strings-literals", str(n)])
+        if exc is not None:
+            return f"run failed: {type(exc).__name__}: {exc}"
+        line = next((l for l in strip_header(out).splitlines() if l.strip().startswith("s:")), "")
+        is_lit = "Literal[" in line
+        should = k < n and k <= 15
+        if is_lit != should:
+            return f"{k} distinct strings with --max-strings-literals {n}: {line.strip()!r} (Literal expected: {should})"
+    return None
+
+
+@bounded("C10", "literal_limit_via_cli")
+def c10_cli(tier, seed):
+    cases = [(k, n) for k in (1, 2, 9, 14, 15, 16) for n in (0, 1, 2, 10, 15, 16, 17, 100)]
+    r = run_cases(cases, oracle_c10_cli, "c10_cli")
+    r["bound"] = "1..16 distinct short strings x --max-strings-literals in {0,1,2,10,15,16,17,100}; pydantic output"
+    r["function"] = "Cli.parse_args -> GenericModelCodeGenerator.__init__(max_literals) -> StringLiteral.to_typing_code"
+    return r
+
+
+# ------------------------------------------------------------------------------------------------ C18 through the command line
+def oracle_c18_cli(case):
+    """--strings-converters reaches the generator for attrs and dataclasses: models built from their own samples hold converted values"""
+    fw, = case
+    sample = {"n": "12", "l": ["1", "2"], "d": {"k": "1.5"}, "o": None}
+    with workdir() as d:
+        p = os.path.join(d, "g.json")
+        json.dump([sample, {"n": "3", "l": [], "d": {"j": "2.5"}, "o": ["7"]}], open(p, "w"))
+        out, exc, printed = run_cli(["-m", "Item", p, "-f", fw, "--strings-converters", "--dkf", "d"])
+        if exc is not None:
+            return f"run failed: {type(exc).__name__}: {exc}"
+        ns = {"__name__": "j2m_c18_cli_" + fw}
+        import types
+        mod = types.ModuleType(ns["__name__"])
+        sys.modules[ns["__name__"]] = mod
+        try:
+            exec(compile(strip_header(out), "<cli>", "exec"), mod.__dict__)
+            obj = mod.Item(**sample)
+        finally:
+            sys.modules.pop(ns["__name__"], None)
+        if type(obj.n).__name__ != "IntString":
+            return f"{fw}: n holds {type(obj.n).__name__} {obj.n!r} after construction, annotated IntString"
+        if [type(x).__name__ for x in obj.l] != ["IntString", "IntString"]:
+            return f"{fw}: l holds {[type(x).__name__ for x in obj.l]}, annotated List[IntString]"
+        if type(obj.d["k"]).__name__ != "FloatString":
+            return f"{fw}: d['k'] holds {type(obj.d['k']).__name__}, annotated Dict[str, FloatString]"
+    return None
+
+
+@bounded("C18", "converters_via_cli")
+def c18_cli(tier, seed):
+    r = run_cases([("attrs",), ("dataclasses",)], oracle_c18_cli, "c18_cli")
+    r["bound"] = "attrs and dataclasses output of the CLI with --strings-converters for one two-sample input (direct, list, dict and optional-list pseudo-typed fields), executed and constructed from its first sample"
+    r["function"] = "Cli.MODEL_GENERATOR_MAPPING / Cli.set_args -> generator kwargs -> convert_strings"
     return r
 
 
 # ------------------------------------------------------------------------------------------------ C17
 FAULTS = ["missing_file", "bad_json", "wrong_lookup", "scalar_lookup", "falsy_scalar_lookup", "non_object_sample", "bad_merge", "bad_framework_combo",
           "generator_exception", "bad_yaml", "bad_ini", "missing_ini", "missing_yaml", "null_sample", "zero_sample", "false_sample", "empty_string_sample",
-          "empty_list_sample", "string_sample", "looked_up_list_with_null"]
+          "empty_list_sample", "string_sample", "looked_up_list_with_null", "missing_bracket_file", "missing_in_bracket_dir"]
 
 
 def oracle_c17(case):
@@ -228,6 +357,11 @@ def oracle_c17(case):
                 good.append(gp)
             bad = os.path.join(d, "nope." + ext)
             fmt = ["-i", ext]
+        elif fault == "missing_bracket_file":
+            bad = os.path.join(d, "page[2].json")
+        elif fault == "missing_in_bracket_dir":
+            os.mkdir(os.path.join(d, "run[3]"))
+            bad = os.path.join(d, "run[3]", "x.json")
         elif fault == "bad_merge":
             json.dump([{"id": 9}], open(bad, "w"))
             extra = ["--merge", "nonsense_5"]
@@ -366,6 +500,10 @@ def c19(tier, seed):
         cases.append(((a,) if a.strip() and "\n" not in a else (), None, "pydantic"))
     cases += [((), "", "base"), ((), "   \n ", "pydantic"), ((), None, "dataclasses"), ((), 'D = r"C:\\Users\\me"', "base"),
               ((r"\d+", r"\w\t"), "import os", "attrs")]
+    # arguments with inner whitespace whose ends are (double) quotes; long runs of blank lines; text that is verbatim-sensitive
+    cases += [((), 'EMPTY = ""', "base"), ((), '"" or print("")', "pydantic"), ((), 'A = "x y"', "attrs"), ((), '"""Doc string."""', "base"),
+              ((), 'BANNER = """top\n\n\n\n\nbottom"""', "base"), ((), "X = 1\n\n\n\n\n\nY = 2", "pydantic"), ((), "# c\t tab\r\nZ = 3", "base"),
+              (('k ""', '"" k'), None, "base"), (('some key ""',), 'P = ""', "pydantic")]
     for _ in range(40 if tier == "quick" else 800):
         s = "".join(rng.choice(C19_ALPHA) for _ in range(rng.randint(1, 5)))
         cases.append(((), "Y = " + repr(s), rng.choice(["base", "pydantic", "attrs", "dataclasses"])))
@@ -376,7 +514,7 @@ def c19(tier, seed):
     return r
 
 
-ORACLES = {"c16": lambda c: oracle_c16(tuple(c)), "c17": lambda c: oracle_c17(tuple(c)), "c17_success": lambda c: oracle_c17_success(tuple(c)),
+ORACLES = {"c18_cli": lambda c: oracle_c18_cli(tuple(c)), "c10_cli": lambda c: oracle_c10_cli(tuple(c)), "c09_cli": lambda c: oracle_c09_cli(tuple(c)), "c16": lambda c: oracle_c16(tuple(c)), "c17": lambda c: oracle_c17(tuple(c)), "c17_success": lambda c: oracle_c17_success(tuple(c)),
            "c19": lambda c: oracle_c19((tuple(c[0]), c[1], c[2]))}
 
 
